@@ -102,10 +102,6 @@ Theorem C06_edge_in_list_refuted : refutes [] w_edge_in_list.
 Proof. exact edge_in_list_refuted. Qed.
 Print Assumptions C06_edge_in_list_refuted.
 
-Theorem C06_record_types_refuted : refutes w_rec_rts w_rec.
-Proof. exact record_types_refuted. Qed.
-Print Assumptions C06_record_types_refuted.
-
 Theorem C06_reference_as_key_refuted : refutes [] w_refkey.
 Proof. exact reference_as_key_refuted. Qed.
 Print Assumptions C06_reference_as_key_refuted.
@@ -118,10 +114,6 @@ Theorem C06_marker_on_node_value_refuted : refutes [] w_marked_node_value.
 Proof. exact marker_on_node_value_refuted. Qed.
 Print Assumptions C06_marker_on_node_value_refuted.
 
-Theorem C06_negative_zero_refuted : refutes [] w_negzero.
-Proof. exact negative_zero_refuted. Qed.
-Print Assumptions C06_negative_zero_refuted.
-
 Theorem C06_bit_array_refuted : refutes [] w_bit_array.
 Proof. exact bit_array_refuted. Qed.
 Print Assumptions C06_bit_array_refuted.
@@ -133,10 +125,6 @@ Print Assumptions C06_uid_array_refuted.
 Theorem C06_custom_type_refuted : refutes [] w_custom.
 Proof. exact custom_type_refuted. Qed.
 Print Assumptions C06_custom_type_refuted.
-
-Theorem C06_chunked_wide_array_refuted : refutes [] w_chunked_u16.
-Proof. exact chunked_wide_array_refuted. Qed.
-Print Assumptions C06_chunked_wide_array_refuted.
 
 Theorem C06_float16_array_refuted : refutes [] w_f16.
 Proof. exact float16_array_refuted. Qed.
